@@ -90,7 +90,9 @@ CORE_KINDS = ["getinfo", "descr_a", "descr_noparam", "ok", "fail", "stream", "un
               "unknown_method", "nodot", "badparam", "noparam", "silent"]
 FLAGS = {"-": {}, "more": {"more": True}, "oneway": {"oneway": True}}
 ALL_FLAGS = {"-": {}, "more": {"more": True}, "oneway": {"oneway": True}, "more+oneway": {"more": True, "oneway": True},
-             "oneway_false": {"oneway": False}, "more_false": {"more": False}}
+             "oneway_false": {"oneway": False}, "more_false": {"more": False},
+             # upgrade:true on a request whose method does not upgrade: the connection stays an ordinary varlink connection
+             "upgflag": {"upgrade": True}, "upgflag+more": {"upgrade": True, "more": True}}
 
 
 def make(kind, flag, tag, flagset=ALL_FLAGS):
